@@ -166,6 +166,10 @@ def main(tier, seed, only=None):
             if s["horizon"]:
                 d.exhaustive = False
                 d.caps.append(f"{s['driver']}/{s['cfg']}: {s['horizon']} scenario(s) stopped at max_events")
+            if s["errors"]:
+                d.exhaustive = False
+                d.caps.append(f"{s['driver']}/{s['cfg']}: {s['errors']} scenario(s) aborted by an exception "
+                              f"raised in library/driver code (no verdict for them)")
             if s["sample"] and len(d.samples) < 3:
                 d.samples.append(s["sample"])
             for fp, (desc, rep, n) in s["viol"].items():
@@ -210,6 +214,14 @@ def main(tier, seed, only=None):
     cov.wall_s = wall
     if only:
         run.notes.append(f"partial run: --only {sorted(only)}")
+    flaky = [dict(f, driver=st["driver"], cfg=st["cfg"]) for st in stats for f in st.get("flaky", [])]
+    nondet = {f"{st['driver']}/{st['cfg']}": st["nondet"] for st in stats if st.get("nondet")}
+    cov.extra["violations_not_reproduced_on_reexecution"] = flaky
+    cov.extra["determinism_selfcheck_mismatches"] = nondet
+    if flaky or nondet:
+        run.notes.append(f"determinism: {len(flaky)} violation(s) did not reproduce on re-execution (not reported), "
+                         f"{sum(nondet.values())} probe scenario(s) gave a different trace on re-execution")
+        print(f"[C07] determinism problems: flaky={flaky[:3]} nondet={nondet}")
     nerr = sum(p["errors"] for p in per_driver.values())
     print(f"[C07] registry drivers={len(sel)} jobs={len(jobs)} covered={len(cov_names)}/{len(concrete)} "
           f"not_covered={len(not_cov)} error_scenarios={nerr} inert={len(inert)} wall={wall:.1f}s")
